@@ -4,7 +4,7 @@ Domain: ordered pairs / triples of sources given to ONE asl run: golden-corpus p
 generators) and generated failing sources that stop with an open construct.  Oracle (differential):
 each file's code file, its diagnostics and the exit status are those of assembling the file alone.
 """
-from vf import engine, corpus, run, asl
+from vf import engine, corpus, run, asl, statepool, variants
 from vf.gen import composite
 
 ID = "C18"
@@ -72,9 +72,22 @@ def plain_tests():
     return _plain
 
 
+def tname(n):
+    """golden test behind an entry (entries: test name | '!failer' | dict(t=test, tail=[state statements],
+    lit=[literal edits]))"""
+    return n["t"] if isinstance(n, dict) else n
+
+
+def label(n):
+    if isinstance(n, dict):
+        return n["t"] + ("+state" if n.get("tail") else "") + ("~lit" if n.get("lit") else "")
+    return n
+
+
 def compatible(names):
     seen = {}
     for n in names:
+        n = tname(n)
         if n.startswith("!"):
             continue
         for k, v in corpus.load(n)["extra"].items():
@@ -94,6 +107,17 @@ def strategy_(d, tier):
             names.append("!" + d.choice(sorted(FAILERS)))
         else:
             names.append(pt[d.int(0, len(pt) - 1)])
+    if d.bool(0.45):
+        # same code generator before and after: the predecessor ends with state statements (ASSUME of the family's
+        # registers, mode switches), the successor is a golden program of that family, often with some numeric
+        # literals changed so that other operand ranges (register windows, pages, banks) are used
+        fams = statepool.tests_by_family(pt)
+        multi = sorted(f for f in fams if fams[f])
+        f = d.choice(multi)
+        pred, succ = d.choice(fams[f]), d.choice(fams[f])
+        a = dict(t=pred, tail=statepool.draw(d, pred))
+        b = dict(t=succ, lit=variants.lit_strategy(d)) if d.bool(0.7) else succ
+        names = [a, b]
     return dict(files=names)
 
 
@@ -102,6 +126,14 @@ def strategy(tier):
 
 
 def source_of(n, idx):
+    if isinstance(n, dict):
+        t = corpus.load(n["t"])
+        src = t["src"]
+        if n.get("lit"):
+            src = variants.perturb_literals(src, n["lit"])
+        if n.get("tail"):
+            src = statepool.append_before_end(src, n["tail"])
+        return "e%d_%s.asm" % (idx, n["t"]), src, t["extra"]
     if n.startswith("!"):
         return "f%d_%s.asm" % (idx, n[1:]), FAILERS[n[1:]].encode(), {}
     t = corpus.load(n)
@@ -124,7 +156,7 @@ def run_set(names, idxs):
             argv += ["-o", "out%d.p" % i]
         for i in idxs:
             argv += ["-shareout", "out%d.h" % i]
-        r = run.run(argv, d, timeout=120, cpu=90)
+        r = run.run(argv, d, timeout=40, cpu=10)
         for i in idxs:
             outs[i] = run.read(d, "out%d.p" % i)
         return r, outs, argv
@@ -132,10 +164,16 @@ def run_set(names, idxs):
 
 def execute(case):
     names = case["files"]
-    classes = ["n%d" % len(names)] + ["failing-pred:" + n[1:] for n in names[:-1] if n.startswith("!")]
+    classes = ["n%d" % len(names)] + ["failing-pred:" + n[1:] for n in names[:-1]
+                                      if not isinstance(n, dict) and n.startswith("!")]
+    if any(isinstance(n, dict) and n.get("tail") for n in names):
+        classes += ["state-left-by-pred"] + sorted(set("tail:" + x.split()[0] for n in names if isinstance(n, dict)
+                                                        for x in n.get("tail", [])))
+    if any(isinstance(n, dict) and n.get("lit") for n in names):
+        classes.append("literals-edited")
     if not compatible(names):
         return engine.discarded("include-name-clash", classes)
-    key = "|".join(names)
+    key = "|".join(label(n) + (engine.digest(str(n))[:6] if isinstance(n, dict) else "") for n in names)
     idxs = list(range(len(names)))
     joint, jouts, jargv = run_set(names, idxs)
     if joint.timed_out:
@@ -162,7 +200,8 @@ def execute(case):
             what = ("missing in the joint run" if a is None else "only produced in the joint run" if b is None else
                     "differs (first difference at byte %d)" % next((k for k in range(min(len(a), len(b))) if a[k] != b[k]),
                                                                   min(len(a), len(b))))
-            return engine.bad("code file of %s (position %d after %s) %s" % (names[i], i, names[:i], what),
+            return engine.bad("code file of %s (position %d after %s) %s" % (label(names[i]), i,
+                                                                             [label(x) for x in names[:i]], what),
                               key, classes, single_stderr=singles[i][0].err[-400:], **detail)
     exp_err = "".join(s[0].err for s in singles)
     if joint.err != exp_err:
